@@ -212,6 +212,26 @@ def router_actions(router: str):
     return acts
 
 
+def firewall_actions(fw: str):
+    acts = []
+    for port in ("internal", "external", "dmz"):
+        for direction in ("inbound", "outbound"):
+            for pos in ((1, 24) if (port, direction) == ("internal", "inbound") else (1,)):
+                acts.append(
+                    (
+                        "firewall-acl-add-rule",
+                        dict(
+                            target_firewall_nodename=fw, firewall_port_name=port, firewall_port_direction=direction, position=pos, permission="DENY",
+                            src_ip="192.168.1.2", src_wildcard="NONE", src_port="ALL", dst_ip="ALL", dst_wildcard="NONE", dst_port="ALL", protocol_name="ALL",
+                        ),
+                    )
+                )
+                acts.append(("firewall-acl-remove-rule", dict(target_firewall_nodename=fw, firewall_port_name=port, firewall_port_direction=direction, position=pos)))
+    for verb in ("enable", "disable"):
+        acts.append((f"network-port-{verb}", {"target_nodename": fw, "port_num": 1}))
+    return acts
+
+
 def mini_scenario(
     kind: str = "switched",
     max_episode_length: int = 8,
@@ -233,6 +253,21 @@ def mini_scenario(
         nodes.append({"type": "switch", "hostname": "switch_1", "num_ports": 4, "start_up_duration": 0})
         gw = None
         lan_b = "192.168.1"
+    elif kind == "firewalled":
+        permit_all = {10: {"action": "PERMIT"}}
+        nodes.append(
+            {
+                "type": "firewall", "hostname": "firewall_1", "start_up_duration": 0, "shut_down_duration": 0,
+                "ports": {
+                    "external_port": {"ip_address": "192.168.1.1", "subnet_mask": "255.255.255.0"},
+                    "internal_port": {"ip_address": "192.168.2.1", "subnet_mask": "255.255.255.0"},
+                    "dmz_port": {"ip_address": "192.168.3.1", "subnet_mask": "255.255.255.0"},
+                },
+                "acl": {k: copy.deepcopy(permit_all) for k in ("internal_inbound_acl", "internal_outbound_acl", "dmz_inbound_acl", "dmz_outbound_acl", "external_inbound_acl", "external_outbound_acl")},
+            }
+        )
+        gw = True
+        lan_b = "192.168.2"
     else:
         nodes.append(
             {
@@ -280,16 +315,20 @@ def mini_scenario(
             },
         )
     )
-    hub = "switch_1" if kind == "switched" else "router_1"
+    hub = "switch_1" if kind == "switched" else ("firewall_1" if kind == "firewalled" else "router_1")
+    if kind == "firewalled":
+        nodes.append(host("dmz_1", "server", "192.168.3.10", {"services": [{"type": "web-server"}]}))
     if kind == "switched":
         for i, n in enumerate(("client_1", "client_2", "server_1"), start=1):
             links.append({"endpoint_a_hostname": hub, "endpoint_a_port": i, "endpoint_b_hostname": n, "endpoint_b_port": 1, "bandwidth": 100})
     else:
         nodes.append({"type": "switch", "hostname": "switch_1", "num_ports": 4, "start_up_duration": 0})
-        links.append({"endpoint_a_hostname": "router_1", "endpoint_a_port": 1, "endpoint_b_hostname": "switch_1", "endpoint_b_port": 4, "bandwidth": 100})
+        links.append({"endpoint_a_hostname": hub, "endpoint_a_port": 1, "endpoint_b_hostname": "switch_1", "endpoint_b_port": 4, "bandwidth": 100})
         links.append({"endpoint_a_hostname": "switch_1", "endpoint_a_port": 1, "endpoint_b_hostname": "client_1", "endpoint_b_port": 1, "bandwidth": 100})
         links.append({"endpoint_a_hostname": "switch_1", "endpoint_a_port": 2, "endpoint_b_hostname": "client_2", "endpoint_b_port": 1, "bandwidth": 100})
-        links.append({"endpoint_a_hostname": "router_1", "endpoint_a_port": 2, "endpoint_b_hostname": "server_1", "endpoint_b_port": 1, "bandwidth": 100})
+        links.append({"endpoint_a_hostname": hub, "endpoint_a_port": 2, "endpoint_b_hostname": "server_1", "endpoint_b_port": 1, "bandwidth": 100})
+        if kind == "firewalled":
+            links.append({"endpoint_a_hostname": hub, "endpoint_a_port": 3, "endpoint_b_hostname": "dmz_1", "endpoint_b_port": 1, "bandwidth": 100})
 
     acts = [("do-nothing", {})]
     acts += host_actions("client_1")
@@ -298,8 +337,10 @@ def mini_scenario(
     # pre-installed software that the scenario does not configure (no target url / no server address)
     acts.append(("node-application-execute", {"node_name": "server_1", "application_name": "web-browser"}))
     acts.append(("node-application-execute", {"node_name": "client_2", "application_name": "data-manipulation-bot"}))
-    if kind != "switched":
+    if kind == "routed":
         acts += router_actions("router_1")
+    elif kind == "firewalled":
+        acts += firewall_actions("firewall_1")
     # removals of applications that share their (port, protocol) key with other software of the node (nmap and the
     # data-manipulation-bot both have no port; database-client and a run-time installed dos-bot both use 5432/tcp)
     acts.append(("node-application-remove", {"node_name": "client_2", "application_name": "data-manipulation-bot"}))
@@ -335,8 +376,10 @@ def mini_scenario(
         }
     elif obs_variant == "padded":
         nodes_opts.update({"num_services": 3, "num_applications": 2, "num_folders": 2, "num_files": 2, "num_nics": 2})
-    if kind != "switched":
+    if kind == "routed":
         nodes_opts["routers"] = [{"hostname": "router_1"}]
+    elif kind == "firewalled":
+        nodes_opts["firewalls"] = [{"hostname": "firewall_1"}]
     link_refs = [f"{l['endpoint_a_hostname']}:eth-{l['endpoint_a_port']}<->{l['endpoint_b_hostname']}:eth-{l['endpoint_b_port']}" for l in links]
     agents = []
     if with_green:
